@@ -247,6 +247,7 @@ package evaluator
 //@   ensures  resultb(0) ==> ncalls == 2 && called(1, evaluator.Eval) && arg1(1) == node.JumpStmt
 //@   assigns  EC
 //@ func evaluator.evalJumpIfYield(node, env, cond) res
+//@   also C14
 //@   requires node != nil && env != nil && node.JumpStmt != nil && isVal(cond)
 //@   ensures  ncalls >= 1 && called(0, evaluator.isTruthy) && arg1(0) == cond
 //@   ensures  !resultb(0) ==> ncalls == 1 && isT(res, *object.PanErr) && as(res, *object.PanErr).ErrKind == object.StopIterErr
@@ -272,6 +273,7 @@ package evaluator
 // the statements are evaluated in order, one Eval each; evaluation stops at the first error / return;
 // a DeferObj result is appended (exactly once, at the end) to the collected list, anything else leaves it unchanged
 //@ func evaluator._evalStmts(stmts, env) res, deferObjs
+//@   also C14
 //@   requires env != nil
 //@   ensures  forall k int :: {result(k)} {arg1(k)} 0 <= k && k < ncalls ==> called(k, evaluator.Eval) && arg1(k) == stmts[k] && arg2(k) == env
 //@   ensures  forall k int :: {result(k)} {arg1(k)} 0 <= k && k < ncalls - 1 ==> !isT(result(k), *object.PanErr) && !isT(result(k), *object.ReturnObj)
@@ -280,7 +282,11 @@ package evaluator
 //@   ensures  ncalls >= 1 && isT(result(ncalls - 1), *object.PanErr) ==> res == result(ncalls - 1)
 //@   ensures  forall j int :: {deferObjs[j]} 0 <= j && j < len(deferObjs) ==> deferObjs[j].Node != nil
 //@   ensures  isVal(res)
+// C14: a body that runs to its end evaluates to the value of its FIRST yield
+//@   ensures  forall k int :: {result(k)} 0 <= k && k < ncalls && isT(result(k), *object.YieldObj) && (forall j int :: {result(j)} 0 <= j && j < k ==> !isT(result(j), *object.YieldObj)) && ncalls == len(stmts) && !isT(res, *object.PanErr) && !isT(result(ncalls - 1), *object.ReturnObj) ==> res == as(result(k), *object.YieldObj).PanObject
 //@   assigns  EC
+//@   loop 1 invariant yielded == nil ==> (forall k int :: {result(k)} 0 <= k && k < ncalls ==> !isT(result(k), *object.YieldObj))
+//@   loop 1 invariant yielded != nil ==> (exists k int :: 0 <= k && k < ncalls && isT(result(k), *object.YieldObj) && yielded == as(result(k), *object.YieldObj).PanObject && (forall j int :: {result(j)} 0 <= j && j < k ==> !isT(result(j), *object.YieldObj)))
 //@   loop 1 invariant (isVal(val) || (isT(val, *object.YieldObj) && yielded != nil)) && (yielded == nil || isVal(yielded))
 //@   loop 1 invariant fresh(deferObjs) && ncalls == rangeindex + 1 && ncalls <= len(stmts) && val != nil
 //@   loop 1 invariant forall k int :: {result(k)} {arg1(k)} 0 <= k && k < ncalls ==> called(k, evaluator.Eval) && arg1(k) == stmts[k] && arg2(k) == env && !isT(result(k), *object.PanErr) && !isT(result(k), *object.ReturnObj)
@@ -305,6 +311,7 @@ package evaluator
 //
 // body first, then the defers it collected - on every way out; only a failing defer replaces the outcome
 //@ func evaluator.evalStmts(stmts, env) res
+//@   also C14
 //@   requires env != nil
 //@   ensures  ncalls == 2 && called(0, evaluator._evalStmts) && arg1(0) == env && sliceArg(0) == stmts
 //@   ensures  called(1, evaluator.evalDefer) && sliceArg(1) == sliceRes(0) && arg1(1) == env
@@ -362,9 +369,10 @@ package evaluator
 // `x := e`: e is evaluated once in the current scope; on success the innermost scope - and only it - gets the binding
 //@ func evaluator.evalAssign(node, env) res
 //@   requires node != nil && env != nil && env.Store != nil
-//@   ensures  ncalls == 1 && called(0, evaluator.Eval) && arg1(0) == node.Right && arg2(0) == env
-//@   ensures  isT(result(0), *object.PanErr) ==> res == result(0)
+//@   ensures  ncalls >= 1 && called(0, evaluator.Eval) && arg1(0) == node.Right && arg2(0) == env
+//@   ensures  isT(result(0), *object.PanErr) ==> res == result(0) && ncalls == 1
 //@   ensures  !isT(result(0), *object.PanErr) ==> res == result(0) && has(env.Store, symhash(node.Left.Value)) && env.Store[symhash(node.Left.Value)] == res
+//@   ensures  !isT(result(0), *object.PanErr) ==> ncalls == 2 && called(1, "object.(*Env).Set") && arg1(1) == env && arg2(1) == symhash(node.Left.Value) && arg3(1) == res
 //@   assigns  EC
 //
 // a name is looked up from the current scope outwards
@@ -386,6 +394,21 @@ package evaluator
 //@   ensures  !isT(result(1), *object.PanErr) ==> res == result(1)
 //@   ensures  isVal(res)
 //@   assigns  EC
+//
+// argument binding: every binding goes into the scope handed in (the call's own fresh scope); `\0` is a new
+// array of the (nil-padded) arguments, `\` the first argument, `\_` the keyword-argument object (bound last)
+//@ func evaluator.assignArgsToEnv(env, params, kwargParams, args, kwargs)
+//@   also C14
+//@   requires env != nil && env.Store != nil && kwargParams != nil && kwargs != nil
+//@   ensures  forall i int :: {arg1(i)} 0 <= i && i < ncalls ==> called(i, "object.(*Env).Set") && arg1(i) == env
+//@   ensures  exists i int :: 0 <= i && i < ncalls && arg2(i) == symhash("\\0") && isT(arg3(i), *object.PanArr) && fresh(arg3(i)) && len(as(arg3(i), *object.PanArr).Elems) >= len(args) && (forall j int :: {as(arg3(i), *object.PanArr).Elems[j]} 0 <= j && j < len(args) ==> as(arg3(i), *object.PanArr).Elems[j] == args[j])
+//@   ensures  len(args) > 0 ==> (exists i int :: 0 <= i && i < ncalls && arg2(i) == symhash("\\") && arg3(i) == args[0])
+//@   ensures  ncalls >= 1 && arg2(ncalls - 1) == symhash("\\_") && arg3(ncalls - 1) == kwargs
+//@   assigns  EC
+//@   loop 1 invariant forall i int :: {arg1(i)} 0 <= i && i < ncalls ==> called(i, "object.(*Env).Set") && arg1(i) == env
+//@   loop 2 invariant forall i int :: {arg1(i)} 0 <= i && i < ncalls ==> called(i, "object.(*Env).Set") && arg1(i) == env
+//@   loop 3 invariant forall i int :: {arg1(i)} 0 <= i && i < ncalls ==> called(i, "object.(*Env).Set") && arg1(i) == env
+//@   loop 4 invariant forall i int :: {arg1(i)} 0 <= i && i < ncalls ==> called(i, "object.(*Env).Set") && arg1(i) == env
 //
 //@ func evaluator.paddedArgs(args, params) res
 //@   ensures  len(res) == (len(args) >= len(params) ? len(args) : len(params))
@@ -530,3 +553,52 @@ package evaluator
 //@   ensures  err == nil ==> isVal(res)
 //@   ensures  ncalls == 1 && called(0, evaluator.builtInCallProp) && arg1(0) == env && nvarargs(0) == 3 && arg4(0) == h.iter && isT(arg5(0), *object.PanStr) && as(arg5(0), *object.PanStr).Value == "next"
 //@   assigns  EC
+//
+// ---- C14: iterator literals -------------------------------------------------------------------------
+//@ props C14
+// Iter#new: a new iterator over the same code whose scope is new (own store), enclosed by the scope the literal
+// was written in - never the scope of the iterator it was made from - with the arguments bound in that new scope
+//@ func evaluator.iterNew(env, kwargs, args) res
+//@   uses     traceFunc_def, traceBuiltInIter_def
+//@   requires kwargs != nil && argsOK(args)
+//@   let ok := len(args) >= 1 && traceBuiltInIter(args[0]) == nil && traceFunc(args[0]) != nil
+//@   let self := traceFunc(args[0])
+//@   let selfEnv := traceFunc(args[0]).Env
+//@   ensures  !ok ==> isErr(res) && ncalls == 0
+//@   ensures  ok ==> isT(res, *object.PanFunc) && fresh(res) && as(res, *object.PanFunc).FuncKind == object.IterFunc && as(res, *object.PanFunc).FuncWrapper == self.FuncWrapper
+//@   ensures  ok ==> fresh(as(res, *object.PanFunc).Env) && fresh(as(res, *object.PanFunc).Env.Store) && as(res, *object.PanFunc).Env.outer == selfEnv.outer && as(res, *object.PanFunc).Env != selfEnv
+//@   ensures  ok ==> ncalls == 1 && called(0, evaluator.assignArgsToEnv) && arg1(0) == as(res, *object.PanFunc).Env && arg2(0) == self.FuncWrapper.Kwargs() && arg3(0) == kwargs && sliceArg(0) == self.FuncWrapper.Args().Elems
+//@   ensures  ok ==> len(sliceArg2(0)) == len(args) - 1 && arrOf(sliceArg2(0)) == arrOf(args) && offOf(sliceArg2(0)) == offOf(args) + 1
+//@   assigns  EC
+//
+//@ func evaluator.recur(iter) res
+//@   ensures  res != nil
+//@   assigns  nothing
+// recur: the iterator - and only it - gets a new scope (own store, same enclosing scope) with the new arguments
+//@ func evaluator.recur$1(env, kwargs, args) res
+//@   requires kwargs != nil && iter != nil && iter.Env != nil
+//@   let oldOuter := iter.Env.outer
+//@   let oldEnv := iter.Env
+//@   ensures  res == object.BuiltInNil
+//@   ensures  fresh(iter.Env) && fresh(iter.Env.Store) && iter.Env.outer == oldOuter && iter.Env != oldEnv
+//@   ensures  ncalls == 1 && called(0, evaluator.assignArgsToEnv) && arg1(0) == iter.Env && arg2(0) == iter.FuncWrapper.Kwargs() && arg3(0) == kwargs && sliceArg(0) == iter.FuncWrapper.Args().Elems && sliceArg2(0) == args
+//@   assigns  EC
+//
+//@ traced: evaluator.evalIterCall
+//@ func evaluator.iterNext(env, kwargs, args) res
+//@   requires argsOK(args)
+//@   ensures  len(args) < 1 ==> isErr(res) && ncalls == 0
+//@   ensures  len(args) >= 1 ==> ncalls == 1 && called(0, evaluator.evalIterCall) && arg1(0) == args[0] && res == result(0)
+//@   assigns  EC
+// next: binds `recur`, then evaluates the body exactly once in the iterator's current scope; a built-in iterator
+// is called once with its own scope
+//@ func evaluator.evalIterCall(self) res
+//@   requires isVal(self)
+//@   ensures  isT(self, *object.PanFunc) ==> ncalls == 1 && called(0, evaluator.evalStmts)
+//@   ensures  isT(self, *object.PanFunc) ==> arg1(0) == old(as(self, *object.PanFunc).Env)
+//@   ensures  isT(self, *object.PanFunc) ==> sliceArg(0) == *as(self, *object.PanFunc).FuncWrapper.Body()
+//@   ensures  isT(self, *object.PanFunc) ==> res == result(0)
+//@   ensures  isT(self, *object.PanBuiltInIter) ==> ncalls == 1 && called(0, "object.BuiltInFunc") && arg1(0) == as(self, *object.PanBuiltInIter).Env && res == result(0)
+//@   ensures  !isT(self, *object.PanFunc) && !isT(self, *object.PanBuiltInIter) ==> ncalls == 0 && isErr(res)
+//@   assigns  EC
+
